@@ -9,11 +9,18 @@ Results == ndJsonDeserialize(ResultFile)
 
 VARIABLES l, viol, cnt
 ovars == <<l, viol, cnt>>
-Names == {"C19_NoWriteWhenReadOnly", "Conf_ReadWriteMatchesModel", "Conf_ReadOnlyStatusMatchesModel"}
+Names == {"C19_NoWriteWhenReadOnly", "C14_PreviewFlagReachesBackend", "Conf_ReadWriteMatchesModel", "Conf_ReadOnlyStatusMatchesModel"}
+\* C14 at the HTTP boundary: a request carrying its API version's preview flag with the value true
+\* (v2: dryRun, v1: preview) never reaches the backend as a real write. The bulk endpoints take no such flag.
+CarriesOwnFlag(r) == \/ r.variant = "dry-run-query"
+                     \/ (r.ver = "v2" /\ r.variant = "dry-run-only")
+                     \/ (r.ver = "v1" /\ r.variant = "preview-only")
+IsBulk(r) == r.bulk
 
 Failing(r) ==
     LET T(name, ok) == IF ok THEN {} ELSE {name} IN
     T("C19_NoWriteWhenReadOnly", r.ro.writes = 0)
+    \cup T("C14_PreviewFlagReachesBackend", (CarriesOwnFlag(r) /\ ~IsBulk(r)) => r.rw.writes = 0)
     \cup T("Conf_ReadWriteMatchesModel", r.expRW.write = (r.rw.writes + r.rw.dryWrites > 0) \/ r.rw.status >= 400)
     \cup T("Conf_ReadOnlyStatusMatchesModel", (r.expRO.status = "rejected") => (r.ro.status = 400))
 
